@@ -207,8 +207,8 @@ def d2_axis(ctx):
             ok, v = const_value(ax) if ax is not None else (False, None)
             ctx.check(ok and isinstance(v, int) and (v >= 1 or v == -1), fi, c, c, "reduction runs inside each waveform",
                       f"`{src(c)[:70]}` reduces over axis {v if ok else 'None (all elements)'}: a waveform's features depend on the other waveforms in the batch", key=f"axis:{q.split('.')[-1]}:{norm(c)[:50]}")
-    if n < 8:
-        raise AnchorMissing(f"only {n} reductions found under compute_spike_features (expected >= 8): call graph not resolved")
+    if n < 6:
+        raise AnchorMissing(f"only {n} reductions found under compute_spike_features (expected >= 6): call graph not resolved")
 
 
 def _value_like(e):
@@ -339,6 +339,14 @@ def _rel(du, e, at, peak, depth=0):
     if isinstance(e, ast.UnaryOp) and isinstance(e.op, (ast.Invert, ast.Not)):
         m = rec(e.operand)
         return ALL3 - m if isinstance(m, frozenset) else None
+    if isinstance(e, ast.BinOp) and isinstance(e.op, ast.Sub):
+        # signed offset of the sample from the peak of its row: arange(T)[None, :] - p[:, None]  (its sign is what the masks compare)
+        le, re_ = expand_name(du, e.left, at), expand_name(du, e.right, at)
+        if "arange" in src(le) and _is_peak(du, re_, at, peak):
+            return {"LT": -1, "EQ": 0, "GT": 1}
+        if "arange" in src(re_) and _is_peak(du, le, at, peak):
+            return {"LT": 1, "EQ": 0, "GT": -1}
+        return None
     if isinstance(e, ast.BinOp) and isinstance(e.op, (ast.BitAnd, ast.BitOr)):
         a, b = rec(e.left), rec(e.right)
         if isinstance(a, frozenset) and isinstance(b, frozenset):
@@ -368,9 +376,15 @@ def _rel(du, e, at, peak, depth=0):
 
 def _is_peak(du, e, at, peak):
     v = e
-    for _ in range(4):
+    for _ in range(6):
         if isinstance(v, ast.Subscript):   # p[:, None]
             v = v.value
+            continue
+        if isinstance(v, ast.Call) and call_name(v) in ("astype", "copy") and isinstance(v.func, ast.Attribute):   # p.astype(int)
+            v = v.func.value
+            continue
+        if isinstance(v, ast.Call) and call_name(v) in ("asarray", "array", "int64", "intp") and v.args:
+            v = v.args[0]
             continue
         break
     if loc_name(v) == peak:
